@@ -400,5 +400,7 @@ def run(ctx, rep):
     r01f(ctx, rep, cr)
     r01g(ctx, rep, cr)
     r01h(ctx, rep, cr)
+    import c10
+    c10.r10g(ctx, rep)   # one vote per term across a restart: the logged vote is recovered
     if ctx.tier == 'thorough':
         witness.run(rep, 'R01a', ['RaftPersistentStateIsPrivate'])
